@@ -466,7 +466,18 @@ def counter_inv(F):
                     # is a function import: the kind is read off the TypeRef constructor at the call site
                     if t[0]["path"] in reach_add:
                         kind = None
-                        for a in n["args"]:
+                        from vlib.facts import binding_site as _bs
+                        srcs = list(n["args"])
+                        for _round in range(2):
+                            # an import built into a local first (`let import = helper(.., TypeRef::Func(..), ..)`) is read
+                            # through the local's initialiser
+                            for a in list(srcs):
+                                for x in walk(a):
+                                    if x.get("k") == "Path" and x.get("res", {}).get("r") == "local":
+                                        _p, scr_, _k = _bs(fn["body"], x["res"]["hid"])
+                                        if scr_ is not None and all(scr_ is not y for y in srcs):
+                                            srcs.append(scr_)
+                        for a in srcs:
                             for x in walk(a):
                                 if x.get("k") == "Call" and (x.get("fres") or {}).get("adt", "").endswith("TypeRef"):
                                     kind = x["fres"].get("variant")
